@@ -68,6 +68,30 @@ def gen(rng, V, depth, pools):
             else:
                 leaves.append(("lit", "%d %s" % (x, e["word"]), F(x) * F(10) ** e["prefix"], e["dims"]))
         return ("bin", rng.choice("**/"), leaves[0], leaves[1])
+    if rng.random() < 0.04:
+        # the SAME unit in two to four operands, so that its power accumulates beyond what one literal carries (au^-2 * au^-2 * ...,
+        # ft^3 / ft^-3): both groupings of the chain occur (seed C13-e)
+        e = V.pick(rng)
+        leaves = []
+        for _ in range(rng.randint(2, 4)):
+            fs = [(e, rng.choice([-3, -2, -2, -1, 1, 2, 3]))]
+            if rng.random() < 0.4:
+                o = V.pick(rng)
+                if o["key"] != e["key"]:
+                    fs.append((o, rng.choice([1, -1])))
+            s, dims = V.factors_si(fs)
+            xs, x = mag(rng)
+            leaves.append(("lit", "%s %s" % (xs, G.text(fs, rng)), x * s, dims))
+        sign = rng.choice(["*", "*", "/"])
+        if rng.random() < 0.5:
+            t = leaves[0]
+            for l in leaves[1:]:
+                t = ("bin", sign if rng.random() < 0.7 else "*", t, l)
+        else:
+            t = leaves[-1]
+            for l in reversed(leaves[:-1]):
+                t = ("bin", sign if rng.random() < 0.7 else "*", l, t)
+        return t
     if rng.random() < 0.05:
         # two operands that share a unit NAME under different prefixes (500 g/lb * 2 lb/kg, 254 cm/in / 1 in/m); in half of the
         # cases each operand is a ratio whose dimensions cancel inside the operand (seed C04-d)
@@ -108,6 +132,40 @@ def shard(p):
         elec = [e for e in V.entries if e["unit"] in ("Volt", "Ohm", "Siemens", "Farad", "Henry", "Weber", "Tesla", "Coulomb", "Ampere", "Watt", "Second", "Meter", "Gram")]
         pools = [None, None, mech, elec]
         cases = []
+        # look-alikes: different units that PRINT the same (g = gram / g-force, Pa = pascal / peta-acceleration, min, ha, cc ...),
+        # found by asking the tool how it displays every vocabulary word. The same product once with each of them, back to back on
+        # one thread and inside one expression: anything keyed on the printed form of a unit confuses them (seed C04-e)
+        dreps = d.call_many([{"op": "query", "q": "1 " + e["word"], "full": True} for e in V.entries], timeout=300)
+        by_disp = {}
+        for e, r in zip(V.entries, dreps):
+            its = r.get("items") or []
+            if len(its) == 1 and "ok" in its[0] and its[0]["ok"].get("disp"):
+                by_disp.setdefault(its[0]["ok"]["disp"], {}).setdefault((e["key"], e["prefix"]), e)
+        groups = [list(g.values()) for g in by_disp.values() if len(g) > 1]
+        acc.seen("lookalike_groups", tuple(sorted(k for k, g in by_disp.items() if len(g) > 1)))
+        for _ in range(p["n"] // 40 if groups else 0):
+            e1, e2 = rng.sample(rng.choice(groups), 2)
+            o = V.pick(rng)
+            if o["key"] in (e1["key"], e2["key"]):
+                continue
+            xs, x = mag(rng)
+            ys, y = mag(rng)
+            pw = rng.choice([1, 1, 2, -1])
+            op = rng.choice("**/")
+            def prod(e):
+                s1, d1 = V.factors_si([(e, pw)])
+                s2, d2 = V.factors_si([(o, 1)])
+                ut = e["word"] if pw == 1 else "%s^%d" % (e["word"], pw)
+                a = ("lit", "%s %s" % (xs, ut), x * s1, d1)
+                b = ("lit", "%s %s" % (ys, o["word"]), y * s2, d2)
+                return ("bin", op, a, b) if rng.random() < 0.5 or op == "/" else ("bin", op, b, a)
+            t1, t2 = prod(e1), prod(e2)
+            for t in (t1, t2, ("bin", "/", t1, t2), t2, t1):
+                try:
+                    want = model(t)
+                except Zero:
+                    want = "zero"
+                cases.append((t, want))
         for _ in range(p["n"]):
             t = gen(rng, V, rng.randint(1, p["depth"]), pools)
             if t[0] == "lit":
